@@ -8,11 +8,12 @@ from contracts import clib, container_transfer as CT, container_ops as CO, plate
 
 FUNCTIONS = {
     'C01': ['Container._transfer', 'Container.transfer', 'Container._transfer_slice', 'PlateSlicer._transfer',
-            'Plate.transfer', 'Slicer.apply', 'Slicer.set', 'Slicer.get'],
+            'Plate.transfer', 'Slicer.apply', 'Slicer.set', 'Slicer.get', 'Slicer.__init__', 'Slicer.parse_single',
+            'Slicer.parse_tuple', 'Slicer.parse_slice', 'Slicer.resolve_labels', 'Plate.__getitem__'],
     'C02': ['Container._transfer', 'Unit.parse_quantity', 'Unit.convert_to_storage', 'Container._transfer_slice',
             'PlateSlicer._transfer', 'Slicer.apply'],
     'C03': ['Container.__init__', 'Container._self_add', 'Container._add', 'Container._transfer', 'Container.remove',
-            'Container.fill_to'],
+            'Container.fill_to', 'PlateSlicer.fill_to', 'Plate.fill_to'],
     'C10': ['Container.__init__', 'Container._self_add', 'Container._add', 'Container._transfer', 'Container.remove',
             'Container.fill_to', 'Container.get_volume', 'Container.get_concentration', 'PlateSlicer.get_volumes',
             'PlateSlicer.get_moles', 'PlateSlicer.get_substances', 'Plate.get_volumes', 'Plate.get_moles',
@@ -20,7 +21,8 @@ FUNCTIONS = {
     'C17': ['Container.remove', 'PlateSlicer.remove', 'Plate.remove', 'Slicer.apply'],
     'C07': ['Slicer.apply', 'Slicer.set', 'Slicer.get', 'Container._transfer_slice', 'PlateSlicer._transfer',
             'PlateSlicer.remove', 'PlateSlicer.fill_to', 'Plate.transfer', 'Plate.remove', 'Plate.fill_to',
-            'Container.transfer', 'Plate.__getitem__'],
+            'Container.transfer', 'Plate.__getitem__', 'Slicer.__init__', 'Slicer.parse_single', 'Slicer.parse_tuple',
+            'Slicer.parse_slice', 'Slicer.resolve_labels'],
     'C11': ['Container.fill_to', 'Container._add', 'Container._self_add', 'Container.dilute'],
     'C05': ['Container.create_solution', 'Unit.parse_concentration', 'Unit.parse_quantity', 'Unit.convert_from'],
     'C12': ['Container.create_solution_from', 'Unit.parse_concentration', 'Unit.parse_quantity'],
@@ -90,7 +92,12 @@ def tasks(tier, pid):
             for v in variants:
                 t.append(('recipe_method', m, v, False))
         t.append(('syntactic',))
+    if pid == 'C03':
+        # a refusal must survive the plate level: every addressed well of a plate fill_to goes through Container.fill_to
+        # (a well skipped by the plate code is a well whose infeasible request is not refused)
+        t += [('plate_unary',) + c for c in PO.unary_cases(tier) if c[0] == 'fill_to']
     t += unit_contract_tasks(tier, pid)
+    t += selector_contract_tasks(tier, pid)
     from contracts import rounding_placement as RP
     t += [('rounding_placement',) + x for x in RP.tasks(tier, pid)]
     t.append(('canaries',))
@@ -110,6 +117,28 @@ def unit_contract_tasks(tier, pid):
     return [('unit_contract',) + x for x in U6.tasks(tier) if x[0] in ('prefix', 'convert_from', 'convert', 'storage')]
 
 
+# Properties decided modulo "plate[selector] addresses the documented wells" (the plate-level contracts build their slices
+# with the real Plate.__getitem__ on small plates): their checks re-discharge the selector contract of C13 (symbolic plate
+# sizes, labelings and selector contents) under their own name.
+USES_SELECTOR_CONTRACT = ('C01', 'C07')
+
+
+def selector_contract_tasks(tier, pid):
+    if pid not in USES_SELECTOR_CONTRACT:
+        return []
+    from contracts import c13_slicer as S13
+    return [('selector_contract',) + x for x in S13.tasks(tier) if x[0] in ('templates', 'get')]
+
+
+def run_selector_contract(pid, *args):
+    from contracts import c13_slicer as S13
+    out = []
+    for r in S13.run(*args):
+        if r['kind'] in ('property', 'aux') or r['verdict'] == 'unsupported':
+            out.append(dict(r, name=r['name'].replace('C13/', f'{pid}/', 1)))
+    return out
+
+
 def run_unit_contract(pid, *args):
     from contracts import c06_units as U6
     out = []
@@ -122,6 +151,8 @@ def run_unit_contract(pid, *args):
 def run(pid, kind, *args):
     if kind == 'unit_contract':
         return run_unit_contract(pid, *args)
+    if kind == 'selector_contract':
+        return run_selector_contract(pid, *args)
     if kind == 'rounding_placement':
         from contracts import rounding_placement as RP
         return RP.run(pid, *args)
